@@ -10,21 +10,27 @@ from harness.common import Run, coq_Q, coq_bool, coq_list, frac
 from harness.translate import c20_bench
 
 META = dict(
-    technique="Coq theorems (list induction, stable-sort invariants, exact field algebra over Q) on a hand-written model of "
-              "_get_feature_values / ConstantModel / LMEPersonalizeAlgorithm / LMEModel; the model's executable definitions are run "
-              "inside Coq (vm_compute, exact rationals) on the very inputs given to the implementation and compared with its outputs; "
-              "statsmodels agreement and straight-line shape are runtime oracles",
+    technique="Coq theorems (list induction, stable-sort invariants, exact field algebra over Q) on a model of _get_feature_values / ConstantModel / "
+              "LMEPersonalizeAlgorithm / LMEModel / the storing step of LMEFitAlgorithm; T1: those five functions are regenerated from the python "
+              "source by a fail-closed shape-typed symbolic executor (coq/gen/GenC20.v, compositions of numpy-primitive meanings) and proved EQUAL "
+              "to the model; T2: the model's executable definitions are run inside Coq (vm_compute, exact rationals) on the very inputs given to "
+              "the implementation and compared with its outputs; statsmodels agreement, covariance-form conditional means and straight-line "
+              "shape are runtime oracles",
     level_text="Unbounded theorems: 'last' / 'last-known' / 'max' / 'mean' meet order-free specifications (row of the greatest age; "
                "value at the greatest age where present; greatest / arithmetic mean of present values; NaN iff missing at every "
                "visit) for every table, and are invariant under row permutation (distinct ages for the two age-based ones); the "
                "prediction is that value at every requested age; the personalised random effects are the unique solution of "
-               "(Z'Z + Psi^-1) b = Z'r whenever that matrix is regular; the random-intercept shortcut is the one-column instance and the "
-               "Gaussian conditional mean; the trajectory is the line intercept + slope*age. Refuted and replayed: ages that "
-               "collide once stored in float32 make 'last'/'last-known' return the earlier visit.",
-    level_note="Trusted: Coq kernel (all theorems closed under the global context); hand-written model tied by executing it on the "
-               "implementation's inputs (no translator); numpy/torch/pandas kernels; float rounding outside the theorems (exact "
-               "comparison on dyadic inputs for last/last-known/max, stated tolerances otherwise). statsmodels' fit (the variance "
-               "components) is not modelled: agreement with fitted.random_effects is a runtime oracle.",
+               "(Z'Z + Psi^-1) b = Z'r whenever that matrix is regular; the random-intercept closed form is the code's generic formula at "
+               "Z = 1 and the Gaussian conditional mean; an accepted fit stores a two-sided inverse of cov_re / noise^2 and a singular "
+               "covariance is refused; precision form = covariance form D Z'(Z D Z' + I)^-1 r for invertible D, 0 for D = 0; the trajectory is "
+               "the line intercept + slope*age. All of it holds of the definitions regenerated from the source (C20_src_*). Refuted and "
+               "replayed: ages that collide once stored in float32 make 'last'/'last-known' return the earlier visit.",
+    level_note="Trusted: Coq kernel (all theorems closed under the global context); the translator harness/translate/c20_bench.py and the "
+               "exact-arithmetic meanings of the numpy / python / statsmodels primitives it targets (Api/BenchNumpy.v; exercised on every run by "
+               "executing the model on the implementation's inputs); numpy/torch/pandas kernels; float rounding outside the theorems (exact "
+               "comparison on dyadic inputs for last/last-known/max, stated tolerances otherwise). statsmodels' optimiser (the variance "
+               "components) is an input of the model: agreement with fitted.random_effects is a runtime oracle; ages_std and noise_std enter the "
+               "fit model through their squares.",
     design_ref="DESIGN.md section 4 C20",
 )
 
@@ -1027,15 +1033,19 @@ def main(run: Run):
         "duplicated (ID, TIME) rows (C14); distinct ages that collide in float32 are the recorded finding",
         "float rounding is outside the theorems: values are compared exactly on dyadic inputs (last, last-known, max) and within "
         "1e-6 (mean, float32), 1e-9 (LME, float64, float32-exact normalisation), 1e-5 (LME, normalisation rounded in float32), 1e-6 (trajectories, float32)",
-        "the variance components (cov_re_unscaled_inv), fixed effects and normalisation are taken from the fitted model: statsmodels' "
-        "optimiser is not modelled",
+        "the variance components, fixed effects and noise variance are what statsmodels' optimiser returned (an input of the model of the "
+        "storing step; the optimiser is not modelled); cov_re_unscaled = cov_re / scale is statsmodels' definition (checked on every recorded fit)",
+        "numpy arrays are rectangular (wf) for the source-level tie of 'last-known'; the ages requested from the LME trajectory are not an empty list",
     ]
     run.trusted += [
-        "hand-written model coq/theories/Api/Bench.v (tied by executing it inside Coq on the implementation's inputs; no translator)",
+        "model coq/theories/Api/Bench.v, Api/BenchFit.v: tied to the source by the translator (proved equal to the regenerated coq/gen/GenC20.v) and by "
+        "executing it inside Coq on the implementation's inputs",
         "harness float -> exact rational conversion (float.as_integer_ratio) and Coq literal printing",
         "numpy / torch / pandas / statsmodels kernels",
     ]
-    run.explanation = ("Theorems (Coq, for every table of visits / every design matrix and residual vector over Q) about executable definitions that "
+    run.explanation = ("The five benchmark functions are regenerated from the python source (fail-closed symbolic execution into compositions of numpy "
+                       "primitive meanings) and proved equal to the model. "
+                       "Theorems (Coq, for every table of visits / every design matrix and residual vector over Q) about executable definitions that "
                        "mirror the code line by line (stable sort by age, argmax of the not-NaN mask, nanmax, nanmean, 2x2 inverse); the same "
                        "definitions are evaluated by vm_compute on the inputs given to the implementation (exact rationals of the floats) and "
                        "compared with its outputs; order-free python recomputation, statsmodels' random effects and the straight-line shape "
